@@ -670,3 +670,55 @@ Lemma expiry_recheck_same_schedule :
   map snd (sh_log (fst (run shared local (tstep DAY repaired) (init 1000 upgrade_progs) upgrade_sched)))
   = [OOk; OOk; OOk; ONotFound; OOk; OVal (VS sb)].
 Proof. vm_compute. reflexivity. Qed.
+
+(* ------------------------------------------------------------------------------------------ *)
+(* value isolation: the Spec's values are immutable                                            *)
+(* ------------------------------------------------------------------------------------------ *)
+(* A Coq value cannot be changed after the fact, so the following are immediate — they are stated because they are
+   obligations on an implementation whose values are Go slices and maps (harness mode "iso"):
+     an answer is a function of the store at the time of the call — no later call changes an answer already returned;
+     a call on one key leaves the value stored under every other key alone (copies between keys are copies);
+     what the caller does afterwards with a slice it handed in or got out is not an operation of the history at all. *)
+
+Lemma run_with_app_outs step : forall h1 h2 m now,
+  outs_of (run_with step m now (h1 ++ h2)) =
+  outs_of (run_with step m now h1) ++
+  outs_of (run_with step (map_of (run_with step m now h1)) (now_of (run_with step m now h1)) h2).
+Proof.
+  unfold outs_of, map_of, now_of.
+  induction h1 as [|o t IH]; intros h2 m now; cbn [app run_with].
+  - cbn. reflexivity.
+  - destruct (step m now o) as [[r m1] now1]. specialize (IH h2 m1 now1).
+    destruct (run_with step m1 now1 (t ++ h2)) as [[rs m2] now2].
+    destruct (run_with step m1 now1 t) as [[rs' m2'] now2']. cbn [fst snd] in *.
+    rewrite IH. reflexivity.
+Qed.
+
+Lemma run_with_outs_length step : forall h m now, length (outs_of (run_with step m now h)) = length h.
+Proof.
+  unfold outs_of. induction h as [|o t IH]; intros m now; cbn [run_with]; [reflexivity|].
+  destruct (step m now o) as [[r m1] now1]. specialize (IH m1 now1).
+  destruct (run_with step m1 now1 t) as [[rs m2] now2]. cbn [fst snd length] in *. rewrite IH. reflexivity.
+Qed.
+
+(* the answers given during h1 are the same whatever history h2 follows *)
+Theorem answers_never_change_later step (h1 h2 : list op) (m : kvmap) (now : N) :
+  firstn (length h1) (outs_of (run_with step m now (h1 ++ h2))) = outs_of (run_with step m now h1).
+Proof.
+  rewrite run_with_app_outs. rewrite <- (run_with_outs_length step h1 m now).
+  rewrite firstn_app, Nat.sub_diag, firstn_O, app_nil_r. apply firstn_all.
+Qed.
+
+(* a call that does not write k leaves what is stored under k exactly as it was (the clock aside) *)
+Theorem spec_other_keys_untouched D s now o k :
+  mutates o k = false -> (forall d, o <> KTick d) ->
+  snd (fst (spec_step D s now o)) k = s k.
+Proof.
+  intros Hm Ht.
+  destruct o; cbn [mutates] in Hm; cbn [spec_step];
+    try (cbn [fst snd]; reflexivity);
+    try (repeat match goal with
+                | |- context [match ?x with _ => _ end] => destruct x
+                end; cbn [fst snd]; unfold upd; rewrite ?Hm; reflexivity).
+  exfalso. eapply Ht. reflexivity.
+Qed.
